@@ -267,13 +267,16 @@ func runCheck(prop, tier, repo, verif, only string, updateBaseline bool) int {
 			obls = append(obls, o)
 		}
 	}
-	for _, u := range w.Unresolved {
-		o := &Obligation{Name: "contract.unresolved:" + u, Kind: "contract", Properties: []string{prop}, Status: "unsupported", Raw: "contract target does not resolve: " + u, Unsupported: "unresolved"}
-		_ = o
-		// unresolved contracts concern every property whose contract file is affected; attribute only if tagged
-		if strings.Contains(u, "func ") {
-			obls = append(obls, o)
+	// a contract whose target no longer exists concerns the properties that contract serves
+	for i, fc := range w.UnresolvedFC {
+		if !hasProp(fc, prop) {
+			continue
 		}
+		u := fc.Key
+		if i < len(w.Unresolved) {
+			u = w.Unresolved[i]
+		}
+		obls = append(obls, &Obligation{Name: "contract.unresolved:" + fc.Key, Kind: "contract", Func: fc.Key, Properties: []string{prop}, Status: "unsupported", Raw: "contract target does not resolve: " + u, Unsupported: "unresolved", Desc: "the function, closure or loop this contract is written for no longer exists"})
 	}
 
 	var todo []*Obligation
